@@ -1650,6 +1650,11 @@ impl Runner {
 		Ok(())
 	}
 
+	/// see `unburied_now`
+	pub fn buried_tx_unburied(&self) -> bool {
+		self.unburied_now()
+	}
+
 	pub fn fingerprint(&self) -> &str {
 		&self.out.fingerprint
 	}
